@@ -19,7 +19,7 @@
    Representation: leaves that the lowering invents are first kept symbolically (`PLeaf lf w`), then numbered behind the
    leaves of the written module (`finish_module`), exactly as `lower` numbers them. *)
 Require Import Hdl21.Base.PyInt Hdl21.Spec.PySlice Hdl21.Model.Slice Hdl21.Model.Resolve Hdl21.Base.Design
-               Hdl21.Spec.Nets Hdl21.Spec.WfDesign Hdl21.Base.C01BDesign Hdl21.Spec.C01BNets Hdl21.Spec.C01BLower.
+               Hdl21.Spec.Nets Hdl21.Spec.WfDesign Hdl21.Base.C01BDesign Hdl21.Spec.C01BNets Hdl21.Spec.C01BWf Hdl21.Spec.C01BLower.
 Require Hdl21.Spec.BundleSpec.
 
 Definition naming := name -> mpath -> name.
@@ -152,3 +152,20 @@ Definition bp_wf_module (m : bmodule) : bool :=
   nodup_names (mod_names m).
 
 Definition bp_wf (d : bdesign) : bool := forallb bp_wf_module (bd_mods d).
+
+(* ---- decidable well-formedness used by the theorem about InstBundleElabPass (Pairs); all of it follows from wf_bdesign:
+   attribute names of a module pairwise distinct; a Pair's port is connected to a scalar expression, a bundle INSTANCE
+   (not a reference into one) or an anonymous bundle; port references (scalar leaves and bundle-port references, at any depth
+   of an anonymous bundle) never point at a Pair ---- *)
+Definition pair_shape (bx : bexpr) : bool := match bx with BXSx _ | BXInst _ [] | BXAnon _ => true | _ => false end.
+
+Definition not_pair (m : bmodule) (i : name) : bool :=
+  match find_binst (bm_insts m) i with Some y => negb (bi_pair y) | None => true end.
+
+Definition pairs_wf_module (m : bmodule) : bool :=
+  nodup_names (mod_names m) &&
+  forallb (fun x => negb (bi_pair x) || forallb (fun c : name * bexpr => pair_shape (snd c)) (bi_conns x)) (bm_insts m) &&
+  forallb (fun il : N * bleaf => match snd il with BLRef i _ => not_pair m i | _ => true end) (bm_leaves m) &&
+  forallb (fun x => forallb (fun c : name * bexpr => forallb (fun r : name * name => not_pair m (fst r)) (bexpr_refs (snd c))) (bi_conns x)) (bm_insts m).
+
+Definition pairs_wf (d : bdesign) : bool := forallb pairs_wf_module (bd_mods d).
